@@ -292,6 +292,8 @@ def det_battery(run, depths=(1, 2, 3)):
         if not s2:
             return 'unavailable'
         jobs = [(d, p) for p in positions(run, playouts=3, plies=40, step=5, endgame_seeds=1) for d in depths]
+        # a few heavier searches (root subtrees that take milliseconds: wall-clock dependent tie-breaks show only there)
+        jobs += [(4, f.split()) for f in FENS[:5]]
 
         def one(job):
             d, p = job
